@@ -1,1 +1,6 @@
-/-! # C08 — property theorems (not built yet) -/
+import PysphVerif.Gen.Kernels
+/-! # C08 — property theorems (under construction) -/
+namespace PysphVerif.C08
+open PysphVerif.Kernel PysphVerif.Gen.Kernels
+theorem tables_chain : ∀ K ∈ all, chainOk K = true := by decide +kernel
+end PysphVerif.C08
